@@ -348,7 +348,7 @@ def rule_structure_semantics(ctx, ix):
     )
     fails = {}
     n = 0
-    for modes, ordering in formats(3):
+    for modes, ordering in formats(4 if getattr(ctx, "tier", "quick") == "thorough" else 3):
         lab = label(modes, ordering)
         for what, fn in (("Tensor.taco_indices", check_taco_indices), ("Tensor.taco_vals", check_taco_vals), ("Tensor.items", check_items)):
             n += 1
@@ -561,8 +561,9 @@ def rule_construction_semantics(ctx, ix):
     ctx.rule("C09.mapping-consumption", "no coordinate is silently dropped when the tree is flattened", min_instances=1)
     dropped = None
     total_feasible = 0
+    thorough = getattr(ctx, "tier", "quick") == "thorough"
     for modes, ordering in formats(2):
-        n_entries = 3 if len(modes) <= 1 else 2
+        n_entries = (4 if thorough else 3) if len(modes) <= 1 else 2
         lab = label(modes, ordering)
         ctx.instance("C09.construction-semantics")
         try:
